@@ -20,6 +20,9 @@ harness (`harness/c11.go`), which says so in the evidence.
 import CtyModel.Lemmas.StdProto
 import CtyModel.Lemmas.StdOblType
 import CtyModel.Lemmas.StdOblTable
+import CtyModel.Lemmas.d11Alloc
+import CtyModel.Lemmas.d11Table
+import CtyModel.Lemmas.d11Total
 import CtyModel.Props.C10
 namespace CtyModel
 namespace C11
@@ -441,6 +444,170 @@ theorem stdlib_type_only_prediction_sound (E : Env) (hE : EnvConvertMono E)
     (fun t ht => stdlib_type_callbacks_monotone E hE sy hsy tf htf hex _ t ht) v h
 
 end PerFunction
+
+
+/-! ## The quantifier "every exported standard-library function", as facts about the tables -/
+
+/-- every entry of the syntax table has its parameter declarations in the parameter table: the
+hypotheses `s ∈ stdlibSpecs`, `sy.var = s.var` of the table-wide theorems above can be met for
+EVERY exported function -/
+theorem every_syntax_entry_has_spec :
+    ∀ sy ∈ Generated.stdlibSyntax, ∃ s ∈ Generated.stdlibSpecs, sy.var = s.var := by
+  intro sy hsy
+  have hm : sy.var ∈ Generated.stdlibSyntax.map (·.var) := List.mem_map.mpr ⟨sy, hsy, rfl⟩
+  rw [tables_agree.1] at hm
+  obtain ⟨s, hs, he⟩ := List.mem_map.mp hm
+  exact ⟨s, hs, he.symm⟩
+
+/-- `tfOf` has a callback exactly for the entries `hasTf` says (a decidable test on the table) -/
+theorem tfOf_isSome (E : Stdlib.Env) (sy : Generated.StdSyntax) : (tfOf E sy).isSome = hasTf sy :=
+  Std.tfOf_isSome E sy
+
+/-- **What is NOT covered by the type-prediction theorems**: of the 80 exported functions, 28 are
+dynamically typed, and exactly these six have no modelled `Type` callback — for them "a type
+checker working with placeholders never contradicts evaluation" is searched by the harness only.
+(Regenerated: a new dynamically typed function, or a new model, changes this list and fails the
+theorem until it is updated.) -/
+theorem unmodelled_type_callbacks :
+    unmodelledTypeCallbacks =
+      ["AssertNotNullFunc", "CSVDecodeFunc", "JSONDecodeFunc", "ParseIntFunc", "RegexAllFunc", "RegexFunc"] ∧
+    Generated.stdlibSyntax.length = 80 ∧ dynamicallyTyped.length = 28 := by decide
+
+/-! ## Clause "never a Go panic and never an error reporting an internal panic": the allocation drivers
+
+Three functions turn a number the caller controls into the size of an allocation
+(`Stdlib/d11Alloc.lean`, following the Go control flow with Go's wrapping `int` arithmetic and the
+runtime's `maxAlloc`; tied to the code by the `c11.alloc` correspondence).  For each the full
+statement is FALSE of the code (recorded findings `panic-error:makeslice:…`): kept as a `def`, with
+the strongest `_partial` theorem and a `_counterexample` whose witness is replayed on the real code
+on every run (harness/c11gen.go, `c11AllocWitnesses`). -/
+
+/-- `indent`: the full statement — FALSE of the code -/
+def IndentPadTotal : Prop := D11.IndentPadTotal
+
+/-- `indent` does not panic when the number of spaces is at most `maxAlloc` (2^48) — or is
+negative, fractional, infinite, beyond the `int` range: those are ordinary errors -/
+theorem indent_total_partial (spaces : Value) (hc : ∀ w, Stdlib.fromCtyInt spaces ≠ .panic w)
+    (hk : ∀ k, Stdlib.fromCtyInt spaces = .ok k → k ≤ D11.maxAlloc) : (D11.indentPad spaces).isPanic = false :=
+  D11.indentPad_total_partial spaces hc hk
+
+/-- … and that bound is exact -/
+theorem indent_panics_iff (spaces : Value) (hc : ∀ w, Stdlib.fromCtyInt spaces ≠ .panic w) :
+    (D11.indentPad spaces).isPanic = true ↔ ∃ k, Stdlib.fromCtyInt spaces = .ok k ∧ k > D11.maxAlloc :=
+  D11.indentPad_panics_iff spaces hc
+
+/-- the witness `indent(2^62, s)`: the conversion to `int` succeeds, `strings.Repeat` panics -/
+theorem indent_total_counterexample :
+    Stdlib.fromCtyInt D11.indentCex = .ok 4611686018427387904 ∧ (D11.indentPad D11.indentCex).isPanic = true := by
+  decide
+
+theorem indentPadTotal_false : ¬ IndentPadTotal := fun h => by
+  have := h D11.indentCex (by intro w; rw [indent_total_counterexample.1]; simp)
+  rw [indent_total_counterexample.2] at this
+  cases this
+
+/-- the side condition of `indent_total_partial` is met by a non-trivial instance -/
+example : (D11.indentPad (Value.intVal 300)).isPanic = false ∧ D11.indentPad (Value.intVal 300) = .ok 300 := by decide
+
+/-- `format`: padding never panics — FALSE of the code -/
+def FormatPadTotal : Prop := D11.FormatPadTotal
+
+/-- no panic when the scanned width is at most `maxAlloc` (or negative after wrap-around) -/
+theorem format_pad_total_partial (ds : List Nat) (g : Int) (hg : 0 ≤ g) (h : D11.accDigits ds ≤ D11.maxAlloc) :
+    (D11.formatPadOfDigits ds g).isPanic = false := D11.formatPad_total_partial ds g hg h
+
+set_option maxRecDepth 8192 in
+/-- the witness `format("%9223372036854775807s", "a")` -/
+theorem format_pad_total_counterexample : (D11.formatPadOfDigits D11.maxIntDigits 1).isPanic = true := by decide
+
+theorem formatPadTotal_false : ¬ FormatPadTotal := fun h => by
+  have := h D11.maxIntDigits 1 (by omega)
+  rw [format_pad_total_counterexample] at this
+  cases this
+
+/-- `format`: the scanner reads the width / precision that is written — FALSE of the code -/
+def WidthReadsLiteral : Prop := D11.WidthReadsLiteral
+
+/-- … it does for every literal up to the largest `int` -/
+theorem width_reads_literal_partial (ds : List Nat) (h : D11.litValue ds ≤ D11.maxInt64) :
+    D11.accDigits ds = D11.litValue ds := D11.widthReadsLiteral_partial ds h
+
+set_option maxRecDepth 8192 in
+/-- the witness `format("%18446744073709551621s", "a")` pads to 5 -/
+theorem width_reads_literal_counterexample :
+    D11.accDigits D11.wrapDigits = 5 ∧ D11.litValue D11.wrapDigits = 18446744073709551621 := by decide
+
+theorem widthReadsLiteral_false : ¬ WidthReadsLiteral := fun h => by
+  have := h D11.wrapDigits
+  rw [width_reads_literal_counterexample.1, width_reads_literal_counterexample.2] at this
+  cases this
+
+/-- `setproduct`: the allocation never panics — FALSE of the code -/
+def SetProductAllocTotal : Prop := D11.SetProductAllocTotal
+
+/-- no panic when every argument is non-empty, the product of the lengths is at most 2^30 and
+there are at most 2^10 arguments (the loop then computes the true product) -/
+theorem setproduct_alloc_total_partial (ls : List Int) (hl : ∀ l ∈ ls, 1 ≤ l)
+    (hp : D11.prodLen ls ≤ 1073741824) (hn : (ls.length : Int) ≤ 1024) :
+    (D11.setProductAlloc ls).isPanic = false := D11.setProductAlloc_total_partial ls hl hp hn
+
+/-- the witnesses: seven lists of 512 elements (2^63 wraps to a negative `int`), six of 1024 (2^60) -/
+theorem setproduct_alloc_total_counterexample :
+    (D11.setProductAlloc [512, 512, 512, 512, 512, 512, 512]).isPanic = true ∧
+    (D11.setProductAlloc [1024, 1024, 1024, 1024, 1024, 1024]).isPanic = true := by decide
+
+theorem setProductAllocTotal_false : ¬ SetProductAllocTotal := fun h => by
+  have := h [512, 512, 512, 512, 512, 512, 512] (by decide)
+  rw [setproduct_alloc_total_counterexample.1] at this
+  cases this
+
+example : D11.setProductAlloc [2, 3] = .ok 6 := by decide
+
+/-- `setproduct` answers the empty collection only if an argument is empty — FALSE of the code
+(a wrong RESULT, not a panic: eight lists of 256 elements multiply to 2^64 = 0) -/
+def SetProductEmptyOnlyIfSomeEmpty : Prop := D11.SetProductEmptyOnlyIfSomeEmpty
+
+theorem setproduct_nonempty_partial (ls : List Int) (hl : ∀ l ∈ ls, 1 ≤ l) (h : D11.prodLen ls ≤ D11.maxInt64) :
+    D11.totalLen ls ≠ 0 := D11.setProduct_nonempty_partial ls hl h
+
+theorem setproduct_nonempty_counterexample :
+    D11.totalLen [256, 256, 256, 256, 256, 256, 256, 256] = 0 ∧
+    D11.setProductAlloc [256, 256, 256, 256, 256, 256, 256, 256] = .ok 0 := by decide
+
+theorem setProductEmptyOnlyIfSomeEmpty_false : ¬ SetProductEmptyOnlyIfSomeEmpty := fun h =>
+  h [256, 256, 256, 256, 256, 256, 256, 256] (by decide) setproduct_nonempty_counterexample.1
+
+
+/-! ## Clause "never a Go panic and never an error reporting an internal panic", per function
+
+`call_total_of_obligations` instantiated: all four hypotheses are PROVED for the modelled callbacks
+of the function, over every argument list the protocol may hand them (null, unknown, marked,
+dynamically typed arguments and arguments of unrelated types included — the protocol's answers to
+those are part of the statement). -/
+
+/-- **`hasindex` is total** (collection.go `HasIndexFunc`, as modelled in Stdlib/Collection.lean and
+compared with the code by the `std.call` correspondence): `HasIndexFunc.Call(args)` on well-formed
+values — ANY number of them, of any type, null, unknown, marked or dynamically typed — returns a
+value or an ordinary error: never a Go panic, never a `PanicError`. -/
+theorem call_total_hasindex (nfc : String → Bool) (args : List Value) (hargs : ∀ a ∈ args, a.WF nfc = true) :
+    (∀ w, (call Stdlib.hasIndexSpec Stdlib.hasIndexType Stdlib.hasIndexImpl args).1 ≠ .panic w) ∧
+    (∀ w, (call Stdlib.hasIndexSpec Stdlib.hasIndexType Stdlib.hasIndexImpl args).1 ≠ .err (.panicError w)) :=
+  Stdlib.call_total_hasIndex args hargs
+
+/-- … and the model's parameter declarations are those of the regenerated table -/
+theorem hasindex_spec_is_table_entry :
+    (Std.find? "HasIndexFunc").map (fun s =>
+      s.params.map (fun p => [p.ty.equals .dyn, p.allowNull, p.allowUnknown, p.allowDynamic, p.allowMarked]) ++ [[s.varParam.isSome]]) =
+    some (Stdlib.hasIndexSpec.params.map (fun p => [p.ty.equals .dyn, p.allowNull, p.allowUnknown, p.allowDynamic, p.allowMarked]) ++
+      [[Stdlib.hasIndexSpec.varParam.isSome]]) := by decide
+
+/-- the hypothesis is met by non-trivial argument lists: a list and an index, and a marked unknown
+next to a null (which the protocol refuses without reaching the callbacks) -/
+example : ∀ a ∈ [(⟨.list .string, .seq [.s "a"]⟩ : Value), Value.intVal 0], a.WF (fun _ => true) = true := by decide
+example : (match (call Stdlib.hasIndexSpec Stdlib.hasIndexType Stdlib.hasIndexImpl
+    [(⟨.list .string, .seq [.s "a"]⟩ : Value), Value.intVal 0]).1 with
+    | .ok v => (match v.v with | .b true => true | _ => false)
+    | _ => false) = true := by decide
 
 /-! ### the hypotheses are satisfiable -/
 
